@@ -130,12 +130,16 @@ func (z *ComplexNumber) QuoRem(x, y, r *ComplexNumber) (*ComplexNumber, *Complex
 	if norm.Cmp(big.NewInt(0)) == 0 {
 		panic("division by zero")
 	}
-	z.Conjugate(y)
-	z.Mul(x, z)
-	z.A0.Div(z.A0, norm)
-	z.A1.Div(z.A1, norm)
-	r.Mul(y, z)
-	r.Sub(x, r)
+	// z and r may be x or y: the quotient and the remainder are built in temporaries
+	var q, rem ComplexNumber
+	q.Conjugate(y)
+	q.Mul(x, &q)
+	q.A0.Div(q.A0, norm)
+	q.A1.Div(q.A1, norm)
+	rem.Mul(y, &q)
+	rem.Sub(x, &rem)
+	z.Set(&q)
+	r.Set(&rem)
 
 	return z, r
 }
